@@ -20,7 +20,7 @@ from .common import *
 sys.path.insert(0, os.path.join(VERIF, 'translator'))
 
 EXN = {'LabelException': 'ELabel', 'ValueError': 'EValue', 'IndexError': 'EIndex', 'AssertionError': 'EAssert',
-       'TypeError': 'EType', 'TagException': 'ETag', 'CapacityException': 'ECapacity',
+       'TypeError': 'EType', 'TagException': 'ETag', 'CapacityException': 'ECapacity', 'TopologyException': 'ETopology',
        'JSONDataError': 'EData', 'MeasurementDataError': 'EData', 'UserDataError': 'EData', 'LayoutDataError': 'EData'}
 
 
@@ -764,7 +764,7 @@ class Misc(Stream):
                         args.append(self.tagv(rng))
                 if k == 'tags_json':
                     args = args[:1] or [[]]
-                out.append({'kind': k, 'args': args})
+                out.append({'kind': k, 'args': args, 'tuple': rng.random() < 0.3})
             elif k == 'name':
                 cls = rng.choice(list(NAME_DOC))
                 v = gen_name(cls, rng) if rng.random() < 0.95 else rng.choice([None, 5])
@@ -791,7 +791,10 @@ class Misc(Stream):
         return out
 
     def tagv(self, rng):
-        return gen_tag(rng) if rng.random() < 0.93 else rng.choice([None, 5, 1.5])
+        r = rng.random()
+        if r < 0.12:        # pieces that are each a valid tag, joined by ONE separator character
+            return wordish(rng, rng.choice([1, 3, 8]), '-') + rng.choice([' ', ' ', ' ', ',', '\t', '.', ';', '|', '\n']) + wordish(rng, rng.choice([1, 3]), '-')
+        return gen_tag(rng) if r < 0.95 else rng.choice([None, 5, 1.5])
 
     def json_text(self, rng, ln):
         r = rng.random()
@@ -820,6 +823,13 @@ class Misc(Stream):
         for cls in NAME_DOC:
             for v in ('n1', 'n1\n', 'n', '', 'a' * 255, 'a' * 256):
                 out.append({'kind': 'name', 'cls': cls, 'v': v})
+            for p in [chr(c) for c in range(128) if not chr(c).isalnum()]:     # sweep of the ASCII non-alphanumerics, per class
+                out.append({'kind': 'name', 'cls': cls, 'v': 'ab' + p + 'cd'})
+        for t in ('blue green', 'a b c', 'x' * 255 + ' y', ' a', 'a ', 'a  b', 'a\tb', 'a,b'):
+            out.append({'kind': 'tags', 'args': [t]})
+            out.append({'kind': 'tags', 'args': [[t]]})
+            out.append({'kind': 'tags', 'args': [['ok', t, 'fine']], 'tuple': True})
+            out.append({'kind': 'tags_json', 'args': [['ok', t]]})
         for ln in (1023, 1024):
             out.append({'kind': 'boot', 'v': 'x' * ln})
         for cls, mx in JD_DOC.items():
@@ -842,7 +852,7 @@ class Misc(Stream):
         try:
             if k == 'tags':
                 from fim.slivers.tags import Tags
-                t = Tags(*case['args'])
+                t = Tags(*[tuple(a) if (case.get('tuple') and isinstance(a, list)) else a for a in case['args']])
                 back = Tags.from_json(t.to_json())
                 return {'ok': list(t.tags), 'recoded': list(back.tags) if back is not None else None}
             if k == 'tags_json':
@@ -1054,6 +1064,12 @@ class Misc(Stream):
 
 FIX = {'NodeSliver': 'fixture-node', 'ComponentSliver': 'fixture-comp', 'NetworkServiceSliver': 'fixture-svc',
        'InterfaceSliver': 'fixture-comp-p1'}
+# names carried by the other elements of the same scope in the fixture (written down by hand: second node, second
+# component of the node, the other services of the topology incl. the NIC's own service, the NIC's second port)
+SIBLINGS = {'NodeSliver': ['fixture-node2'], 'ComponentSliver': ['fixture-comp2'],
+            'NetworkServiceSliver': ['fixture-svc2', 'fixture-node-fixture-comp-l2ovs'],
+            'InterfaceSliver': ['fixture-comp-p2']}
+ASCII_NON_ALNUM = [chr(c) for c in range(128) if not chr(c).isalnum()]
 
 
 class Topo(Stream):
@@ -1072,9 +1088,12 @@ class Topo(Stream):
         from fim.user import ServiceType, ComponentModelType
         t = ExperimentTopology()
         n = t.add_node(name=FIX['NodeSliver'], site='S1')
+        t.add_node(name='fixture-node2', site='S1')
         c = n.add_component(name=FIX['ComponentSliver'], model_type=ComponentModelType.SmartNIC_ConnectX_6)
+        n.add_component(name='fixture-comp2', model_type=ComponentModelType.GPU_RTX6000)
         i = c.interfaces[FIX['InterfaceSliver']]
         s = t.add_network_service(name=FIX['NetworkServiceSliver'], nstype=ServiceType.L2Bridge, interfaces=[i])
+        t.add_network_service(name='fixture-svc2', nstype=ServiceType.L2Bridge, interfaces=[])
         return t, {'NodeSliver': n, 'ComponentSliver': c, 'NetworkServiceSliver': s, 'InterfaceSliver': i}
 
     def gen(self, rng, tier):
@@ -1089,7 +1108,14 @@ class Topo(Stream):
                 out.append({'kind': 'add', 'cls': cls, 'v': gen_name(cls, rng)})
             elif k in ('set', 'rename'):
                 cls = rng.choice(list(FIX))
-                out.append({'kind': k, 'cls': cls, 'v': gen_name(cls, rng)})
+                r = rng.random()
+                if r < 0.08:
+                    v = rng.choice(SIBLINGS[cls] + [FIX[cls]])          # a name already taken in the scope / the own name
+                elif r < 0.25:
+                    v = wordish(rng, rng.choice([1, 2, 5]), '') + rng.choice(ASCII_NON_ALNUM) + wordish(rng, rng.choice([0, 1, 4]), '')
+                else:
+                    v = gen_name(cls, rng)
+                out.append({'kind': k, 'cls': cls, 'v': v})
             elif k == 'update_labels':
                 base = []
                 for f in rng.sample(ALL_FIELDS, rng.choice([0, 0, 1, 2])):
@@ -1117,9 +1143,11 @@ class Topo(Stream):
     def corpus(self):
         out = []
         for cls in FIX:
-            for v in ('x', 'ok-name', 'bad\n'):
+            for v in ['x', 'ok-name', 'bad\n', FIX[cls]] + SIBLINGS[cls]:
                 out.append({'kind': 'set', 'cls': cls, 'v': v})
                 out.append({'kind': 'rename', 'cls': cls, 'v': v})
+            for p in ASCII_NON_ALNUM:           # every ASCII punctuation / control character inside a name, per class
+                out.append({'kind': 'set' if ord(p) % 2 else 'rename', 'cls': cls, 'v': 'ab' + p + 'cd'})
         out.append({'kind': 'update_labels', 'base': [['vlan', '5']], 'kws': [['vlan', '6\n']]})
         out.append({'kind': 'update_labels', 'base': [], 'kws': [['vlan', ['6', '7']]]})
         return out + kept_corpus('topo')
@@ -1202,11 +1230,12 @@ class Topo(Stream):
     def to_coq(self, case, o):
         k = case['kind']
         if 'err' in o and (o['err'].startswith('Fixture') or k in ('set', 'rename', 'update_labels', 'labels_assign')):
-            return 'T_setname [] [] [] [1]%N [] None'      # an exception outside the call under test: never agrees
+            return 'T_setname [] [] [] false [1]%N [] None'      # an exception outside the call under test: never agrees
         if k == 'add':
             return 'T_misc (M_name %s %s %s)' % (cstr(case['cls']), c_sval(case['v']), c_result(o, cstr))
         if k in ('set', 'rename'):
-            return 'T_setname %s %s %s %s %s %s' % (cstr(case['cls']), cstr(FIX[case['cls']]), cstr(case['v']),
+            return 'T_setname %s %s %s %s %s %s %s' % (cstr(case['cls']), cstr(FIX[case['cls']]), cstr(case['v']),
+                                                       cbool(case['v'] in SIBLINGS[case['cls']]),
                                                     cstr(o['handle'] if isinstance(o['handle'], str) else '\x00?'),
                                                     cstr(o['graph'] if isinstance(o['graph'], str) else '\x00?'),
                                                     copt(o['err_or_none'], cexn))
@@ -1240,6 +1269,14 @@ class Topo(Stream):
         if k in ('set', 'rename'):
             good = doc_name(case['cls'], case['v'])
             old = FIX[case['cls']]
+            if case['v'] in SIBLINGS[case['cls']]:
+                # the name is taken in the scope: for this property "rejected, nothing stored" is the right outcome
+                # (an accepted duplicate is C07's business, not reported here)
+                if o['err_or_none'] is not None and (o['graph'] != old or o['handle'] != old):
+                    return 'a %s refused because the name is taken changed the element (handle %r, model %r)' % (k, o['handle'], o['graph'])
+                if o['err_or_none'] is None and (o['graph'] != case['v'] or o['handle'] != case['v']):
+                    return 'name after an accepted %s is %r / %r' % (k, o['handle'], o['graph'])
+                return None
             if o['err_or_none'] is None and not good:
                 return '%s name %r outside the documented pattern stored by %s' % (case['cls'], case['v'], k)
             if o['err_or_none'] is not None and good:
